@@ -2507,3 +2507,100 @@ class LexemeFamily(Family):
         return 'test/calculator', cls.source(), ('all sequences of up to 3 lexemes over 19 (generic tokenizer) and 32 (expression tokenizer) lexemes of every class - identifiers incl. non-Latin, '
                                                  'keywords in mixed case, integers, decimals, scientific notation, quoted strings with doubled quotes and line breaks, comments, every '
                                                  'multi-character symbol - separated by one blank, and unseparated next to brackets and commas')
+
+
+CSV_TEST = r'''package csv_test
+
+import (
+	"strings"
+	"testing"
+
+	"github.com/pip-services3-gox/pip-services3-expressions-gox/csv"
+	"github.com/pip-services3-gox/pip-services3-expressions-gox/tokenizers"
+)
+
+// C09 (bounded): every table of up to 2 rows x 2 columns over the field pool below, under four configurations and the
+// four line endings: fields are written raw when they contain no separator, quote or line break and quote-encoded
+// (doubled quotes) otherwise, or always quoted; the text is tokenized with string decoding on and regrouped into rows
+// and fields, which must be the original table.
+func TestVerifReplay(t *testing.T) {
+	fields := []string{"", "a", "x y", "яé", "a,b", "q\"r", "\"", "\"\"", "l\r\nm", ";", "'", "\t", "a'b", ",\"\n"}
+	type cfg struct { seps []rune; quotes []rune }
+	cfgs := []cfg{{[]rune{','}, []rune{'"'}}, {[]rune{'\t'}, []rune{'"', '\''}}, {[]rune{';', ','}, []rune{'\''}}, {[]rune{','}, []rune{'"'}}}
+	eols := []string{"\n", "\r", "\r\n", "\n\r"}
+	bad := 0
+	for ci, cf := range cfgs {
+		for _, eol := range eols {
+			tk := csv.NewCsvTokenizer()
+			tk.SetFieldSeparators(cf.seps)
+			tk.SetQuoteSymbols(cf.quotes)
+			tk.SetDecodeStrings(true)
+			special := string(cf.seps) + string(cf.quotes) + "\r\n"
+			enc := func(f string, always bool, k int) string {
+				q := cf.quotes[k%len(cf.quotes)]
+				if !always && !strings.ContainsAny(f, special) { return f }
+				return string(q) + strings.ReplaceAll(f, string(q), string(q)+string(q)) + string(q)
+			}
+			var tables [][][]string
+			for _, a := range fields { tables = append(tables, [][]string{{a}}) }
+			for _, a := range fields { for _, b := range fields { tables = append(tables, [][]string{{a, b}}, [][]string{{a}, {b}}) } }
+			for i := 0; i < len(fields); i++ { for j := 0; j < len(fields); j += 3 { tables = append(tables, [][]string{{fields[i], fields[j]}, {fields[(i+j)%len(fields)], fields[(i*j)%len(fields)]}}) } }
+			for _, tbl := range tables {
+				for _, always := range []bool{false, true} {
+					var sb strings.Builder
+					for r, row := range tbl {
+						for c2, f := range row {
+							if c2 > 0 { sb.WriteRune(cf.seps[(r+c2)%len(cf.seps)]) }
+							sb.WriteString(enc(f, always, r+c2))
+						}
+						if r+1 < len(tbl) { sb.WriteString(eol) }
+					}
+					text := sb.String()
+					var got [][]string
+					cur, open := []string{}, false
+					var toks []*tokenizers.Token
+					func() { defer func() { if r := recover(); r != nil { t.Errorf("cfg %d: tokenizing %q panicked: %v", ci, text, r); bad++ } }(); toks = tk.TokenizeBuffer(text) }()
+					for _, tok := range toks {
+						switch {
+						case tok.Type() == tokenizers.Eof:
+						case tok.Type() == tokenizers.Eol:
+							if tok.Value() != eol { t.Errorf("cfg %d: line ending %q came back as %q (one end-of-line token per line ending)", ci, eol, tok.Value()); bad++ }
+							if !open { cur = append(cur, "") }
+							got = append(got, cur); cur, open = []string{}, false
+						case tok.Type() == tokenizers.Symbol && strings.ContainsRune(string(cf.seps), []rune(tok.Value())[0]) && len([]rune(tok.Value())) == 1:
+							if !open { cur = append(cur, "") }
+							open = false
+						default:
+							cur = append(cur, tok.Value()); open = true
+						}
+					}
+					if !open { cur = append(cur, "") }
+					got = append(got, cur)
+					ok := len(got) == len(tbl)
+					for r := 0; ok && r < len(tbl); r++ {
+						if len(got[r]) != len(tbl[r]) { ok = false; break }
+						for c2 := range tbl[r] { if got[r][c2] != tbl[r][c2] { ok = false } }
+					}
+					if !ok { t.Errorf("cfg %d eol %q: table %q written as %q reads back as %q", ci, eol, tbl, text, got); bad++ }
+					if bad > 8 { t.Fatalf("stopping after %d failures", bad) }
+				}
+			}
+		}
+	}
+}
+'''
+
+
+@family(r'/csv\.')
+class CsvFamily(Family):
+    @classmethod
+    def source(cls):
+        return CSV_TEST
+
+    def test_source(self, vals):
+        return 'csv', self.source()
+
+    @classmethod
+    def bounded_source(cls, prog, fname):
+        return 'csv', cls.source(), ('all tables of up to 2x2 fields over a 14-string pool (empty, blanks, non-Latin, separators, quotes, doubled quotes, line breaks) x 4 separator/quote '
+                                     'configurations x 4 line endings, written raw-when-possible and always-quoted, read back with decoding on')
